@@ -422,7 +422,11 @@ class Scenario:
                     continue
                 viol.append(("q2", f"data race on the count word between the non-atomic {a} and {c}", And(ex[a.i], ex[c.i], Not(HB[a.i][c.i]), Not(HB[c.i][a.i])), (a.i, c.i)))
         # all handles are released by construction of the programs => exactly one destroy-or-move-out
-        viol.append(("q3", "the value is not destroyed-or-moved-out exactly once", Not(exactly_one(s.outcomes)), None))
+        # (a payload type without drop glue - TP_needs_drop == 0, only present when the code asks - need not be "destroyed")
+        nd = BitVec("TP_needs_drop", 64)
+        amo = And([Not(And(a, b)) for a, b in itertools.combinations(s.outcomes, 2)]) if len(s.outcomes) > 1 else BoolVal(True)
+        viol.append(("q3", "the value is not destroyed-or-moved-out exactly once", And(Not(exactly_one(s.outcomes)), Or(nd != 0, Not(amo))), None))
+        viol.append(("q3", "the memory is not released exactly once", Not(exactly_one([ex[f.i] for f in frees])), None))
         return S, viol, dict(mo=mo, rf=rf, HB=HB, ex=ex, sbm=sbm, sw=sw)
 
     def describe(s):
